@@ -21,6 +21,41 @@ def _cfg(pool, mode="full", every=1):
     return "cfg %d %s %d" % (pool, mode, every)
 
 
+def fmt_endpoint(typ, e, shift=4):
+    """script token of the endpoint that the unsigned endpoint e stands for in a typed script:
+    i64: e - shift (negative / mixed sign); f64: (e - shift) * 0.25 as %.17g (exactly representable, round-trips)"""
+    if typ == "i64":
+        return "%d" % (e - shift)
+    if typ == "f64":
+        return "%.17g" % ((e - shift) * 0.25)
+    return "%d" % e
+
+
+def retype(lines, typ, shift):
+    """the same script over another endpoint type: every endpoint e becomes fmt_endpoint(typ, e, shift) (order-preserving),
+    the cfg line names the type.  All three instantiations of the harness run the same histories."""
+    if typ == "u64":
+        return list(lines)
+    w = lines[0].split()
+    if len(w) == 3:
+        w.append("1")
+    out = [" ".join(w[:4] + [typ])]
+    f = lambda e: fmt_endpoint(typ, int(e), shift)
+    for l in lines[1:]:
+        t = l.split()
+        if t[0] == "i":
+            out.append("i %s %s %s" % (f(t[1]), f(t[2]), t[3]))
+        elif t[0] == "q":
+            out.append("q %s %s" % (f(t[1]), f(t[2])))
+        elif t[0] == "p":
+            out.append("p %s" % f(t[1]))
+        elif t[0] == "w":
+            out.append("w %s %s" % (t[1], f(t[2])))
+        else:
+            out.append(l)
+    return out
+
+
 def all_intervals(u):
     return [(lo, hi) for lo in range(u) for hi in range(lo, u)]
 
@@ -34,7 +69,7 @@ def all_queries(u, inverted=False):
     return qs
 
 
-def enum_script(n, u, k, inverted=False):
+def enum_script(n, u, k, inverted=False, typ="u64"):
     """script number k of the enumeration of all sequences of n intervals over {0..u-1} (ids 0..n-1 in insertion
     order), followed by ALL queries, one removal (holder of the maximum for even k, node (k//2)%n for odd k) and all
     queries again.  Mirrored by enum_script in harness.cpp and driver.ml (self-enumeration of the thorough tier)."""
@@ -48,17 +83,17 @@ def enum_script(n, u, k, inverted=False):
         mx = max(range(n), key=lambda j: (seq[j][1], -j))
         victim = mx if k % 2 == 0 else (k // 2) % n
         lines += ["r %d" % victim] + qs
-    return lines
+    return retype(lines, typ, 4)
 
 
-def exhaustive(n, u, inverted=False):
-    """all sequences of n intervals over {0..u-1} as explicit scripts"""
-    return [("ex-%d-%d-%d" % (n, u, k), enum_script(n, u, k, inverted)) for k in range(len(all_intervals(u)) ** n)]
+def exhaustive(n, u, inverted=False, typ="u64"):
+    """all sequences of n intervals over {0..u-1} as explicit scripts (typ: endpoints e - 4 resp. (e - 4) / 4)"""
+    return [("ex-%s-%d-%d-%d" % (typ, n, u, k), enum_script(n, u, k, inverted, typ)) for k in range(len(all_intervals(u)) ** n)]
 
 
-def enum_cases(n, u, nshards):
+def enum_cases(n, u, nshards, typ="u64"):
     """the same enumeration done inside harness and driver (digest of all canonical lines + oracle on every script)"""
-    return [("enum-%d-%d-%d" % (n, u, sh), ["cfg %d enum %d %d %d" % (n, u, sh, nshards)]) for sh in range(nshards)]
+    return [("enum-%s-%d-%d-%d" % (typ, n, u, sh), ["cfg %d enum %d %d %d %s" % (n, u, sh, nshards, typ)]) for sh in range(nshards)]
 
 
 def fnv_lines(lines, h=14695981039346656037):
@@ -348,4 +383,11 @@ def corpus():
     # shrunk replays of self-test mutations (NOTES.md) that were not already prefixes of corpus-demo
     c("selftest-replace-node-parent-path", 24, ["i 33 43 15", "i 49 68 12", "i 35 61 14", "i 15 80 11", "i 11 11 16", "r 11", "q 70 75", "q 62 68"])
     c("selftest-left-found-result", 4, ["i 2 2 0", "i 1 1 1", "i 3 3 2", "i 0 3 3", "q 3 3", "p 3", "q 2 3"])
+    # the same histories on the signed and the double instantiation: all endpoints negative (shift 100, the scale 0.25 of
+    # retype) and mixed sign (shift 4).  Seeded change C07-r4-2 (max_of(absent child) = numeric_limits<P>::min(), which is
+    # the smallest POSITIVE double): first visible on "i -0.25 0 0" of corpus-f64-4-demo (subtree_max 2.2e-308 instead of 0).
+    for name, ls in list(cs):
+        for typ in ("i64", "f64"):
+            for shift in (100, 4):
+                cs.append(("%s-%s-%d" % (name.replace("corpus-", "corpus-%s-" % typ), "s", shift), retype(ls, typ, shift)))
     return cs
